@@ -230,8 +230,7 @@ theorem iscloseNd_symm (eps : Int) (s1 : Shape) (d1 : List Int) (s2 : Shape) (d2
     iscloseNd eps s1 d1 s2 d2 = iscloseNd eps s2 d2 s1 d1 := by
   rw [iscloseNd_eq_spec eps s1 d1 s2 d2 h1 p1 h2 p2, iscloseNd_eq_spec eps s2 d2 s1 d1 h2 p2 h1 p1, specCloseNd_symm]
 
-/-- isclose is SYMMETRIC on every accepted pairing (the dropped tolerance of the either-vs-plain branches is dropped in
-    both orders, so even the defective branches are symmetric) -/
+/-- isclose is SYMMETRIC on every accepted pairing -/
 theorem isclose_symm (eps : Int) (a b : Val) (ha : WF a) (hb : WF b) : isclose eps a b = isclose eps b a := by
   fun_induction isclose eps a b <;> (try cases ‹Val›) <;> simp_all [isclose, WF, sameConcept_comm]
   · congr 2; omega
@@ -285,32 +284,32 @@ theorem closeNd_ne_oob (eps : Int) (s1 d1 s2 d2) (h1 : d1.length = prod s1 ∧ P
 theorem isclose_never_oob (eps : Int) (a b : Val) (ha : WF a) (hb : WF b) : isclose eps a b ≠ .oob := by
   fun_induction isclose eps a b <;> simp_all [WF, closeNd_ne_oob, and_ne_oob]
 
-/-- with the caller's tolerance used everywhere (the reference), and in particular whenever no either-vs-plain branch is
-    taken, the code IS the reference: alternative-by-alternative, shapes equal, every element difference below eps -/
-theorem isclose_eq_ref (eps : Int) (a b : Val) (ha : WF a) (hb : WF b) (hm : mixedEither a b = false) :
+/-- isclose IS the reference on every pairing of well-formed operands: alternative-by-alternative matching, shapes equal,
+    every element difference below the caller's eps (full statement; before the fix commit it failed on the
+    either-vs-plain class, where the tolerance was dropped) -/
+theorem isclose_eq_ref (eps : Int) (a b : Val) (ha : WF a) (hb : WF b) :
     isclose eps a b = iscloseRef eps a b := by
-  fun_induction isclose eps a b <;> simp_all [iscloseRef, mixedEither, WF]
+  fun_induction isclose eps a b <;> simp_all [iscloseRef, WF]
   · exact iscloseNd_eq_spec _ _ _ _ _ ha.1 ha.2 hb.1 hb.2
 
-/-- called WITHOUT a tolerance (default eps) the code is the reference on every pairing -/
+/-- called WITHOUT a tolerance (default eps) likewise -/
 theorem isclose_default_eq_ref (a b : Val) (ha : WF a) (hb : WF b) :
-    isclose defaultEps a b = iscloseRef defaultEps a b := by
-  generalize h : defaultEps = e
-  fun_induction isclose e a b <;> subst h <;> simp_all [iscloseRef, WF]
-  · exact iscloseNd_eq_spec _ _ _ _ _ ha.1 ha.2 hb.1 hb.2
+    isclose defaultEps a b = iscloseRef defaultEps a b := isclose_eq_ref defaultEps a b ha hb
 
-/-- GENUINE DEFECT (finding isclose.either-plain-eps): an either against a plain value ignores the caller's tolerance:
-    |3 - 5| < 8, yet isclose(either{3}, 5, 8) is false - in both operand orders -/
-theorem isclose_either_plain_counterexample :
-    isclose 8 (.left (.num 3)) (.num 5) = .val false ∧ isclose 8 (.num 5) (.left (.num 3)) = .val false ∧
-    iscloseRef 8 (.left (.num 3)) (.num 5) = .val true ∧ mixedEither (.left (.num 3)) (.num 5) = true := by
-  simp [isclose, iscloseRef, mixedEither, sameConcept, sameConcept0, unwrapJ, defaultEps]
+/-- REGRESSION instance of the repaired finding isclose.either-plain-eps: |3 - 5| < 8, and isclose(either{3}, 5, 8) is now
+    true in both operand orders, as the reference says (it was false: the tolerance was dropped) -/
+theorem isclose_either_plain_regression :
+    isclose 8 (.left (.num 3)) (.num 5) = .val true ∧ isclose 8 (.num 5) (.left (.num 3)) = .val true ∧
+    iscloseRef 8 (.left (.num 3)) (.num 5) = .val true ∧
+    isclose 8 (.just (.right (.nd [2] [3,4]))) (.nd [2] [5,5]) = iscloseRef 8 (.just (.right (.nd [2] [3,4]))) (.nd [2] [5,5]) := by
+  refine ⟨by simp [isclose, sameConcept, sameConcept0, unwrapJ], by simp [isclose, sameConcept, sameConcept0, unwrapJ],
+    by simp [iscloseRef, sameConcept, sameConcept0, unwrapJ], ?_⟩
+  exact isclose_eq_ref 8 _ _ ⟨by decide, by decide⟩ ⟨by decide, by decide⟩
 
-example : WF (.just (.right (.nd [2] [3,4]))) ∧ WF (.right (.nd [2] [5,5])) ∧
-    mixedEither (.just (.right (.nd [2] [3,4]))) (.right (.nd [2] [5,5])) = false := by
-  refine ⟨⟨by decide, by decide⟩, ⟨by decide, by decide⟩, by simp [mixedEither]⟩
-example : iscloseRef 8 (.just (.right (.nd [2] [3,4]))) (.right (.nd [2] [5,5])) = .val true := by
-  simp [iscloseRef, specCloseNd]
+example : WF (.just (.right (.nd [2] [3,4]))) ∧ WF (.nd [2] [5,5]) := by
+  refine ⟨⟨by decide, by decide⟩, ⟨by decide, by decide⟩⟩
+example : iscloseRef 8 (.just (.right (.nd [2] [3,4]))) (.nd [2] [5,5]) = .val true := by
+  simp [iscloseRef, specCloseNd, sameConcept, sameConcept0, unwrapJ]
 
 /-! non-vacuity and the behaviours the property singles out -/
 example : WF (.nd [2,3] [0,1,2,3,4,5]) ∧ WF (.nd [3,2] [0,1,2,3,4,5]) := by
